@@ -231,7 +231,7 @@ where
         if rest.len() != size.into() {
             return Err(ParseError);
         }
-        T::parse_bytes(bytes).map(Self::new)
+        T::parse_bytes(rest).map(Self::new)
     }
 }
 
